@@ -60,9 +60,9 @@ CHECKS.update({
         design_ref="DESIGN.md#c07"),
     "C20": dict(
         category="model_checking",
-        technique="TLA+ fault model (Faults: outcome alphabet, fault points) with the fault plan enumerated by TLC from probe runs of the real code; every (scenario, fault kind, position) injected into the real archive in crash-contained children; outcomes validated against the model by TLC",
-        text="For representative and TLC-generated load/save scenarios the harness first measures the fault points of the fault-free run (operator new calls, input bytes, output bytes); MC_Faults enumerates every position of every applicable fault kind (k-th allocation fails, input stream buffer reports EOF or throws at byte k, output stream buffer fails or throws at byte k) plus one position past the end; each run executes in a forked child with a terminate handler, watchdog and address-space cap, with a counting allocator reporting blocks that survive the call. Trace_Faults requires: outcome in {returned, exception}, never terminate/hang/crash, zero leaked blocks, and an exception whenever the fault point is reached (MessagePack is prefix-free; a short write is an error).",
-        note="MessagePack archive only so far. Trusted: TLC, harness allocator/stream doubles. Truncation at every byte of generated documents is covered by C07 (thorough). Level reported as model_checking with TLC state counts; the fault enumeration itself is exhaustive over the counted fault points of each scenario.",
+        technique="TLA+ fault model (Faults: outcome alphabet, fault points, code-unit aware truncation bound, delivery-prefix rule) with the fault plan enumerated by TLC (MC_Faults) from probe runs of the real code; CSV tables with library-detected errors generated by TLC (MC_CsvFaults); every (scenario, fault kind, position) injected into the real archives (MsgPack, JSON, XML, CSV) in crash-contained children and judged by TLC (Trace_Faults); scope life-cycle protocol (ScopeUnwind) model-checked against a code-shaped session machine (MC_ScopeUnwind) and trace-validated (Trace_ScopeUnwind) on the events a BITSERIALIZER_VERIF hook records in every fault run",
+        text="For representative and TLC-generated load/save scenarios of all four archives the harness first measures the fault points of the fault-free run (operator new calls, input bytes, output bytes); MC_Faults enumerates every position of every applicable fault kind (k-th allocation fails; the input ends at byte k like a short file, or the stream buffer throws at byte k = I/O error; the output buffer refuses or throws at byte k) plus one position past the last; each is injected into a real run. Trace_Faults requires: outcome is a normal return or an exception (never terminate / crash / hang), nothing leaked, a reached fault is reported as an exception (truncation: wherever at least one significant code unit is cut; CSV is not prefix-free, there an I/O error must still be reported), an unreached fault changes nothing, and what the run delivered before failing is a prefix of what the fault-free run delivers. MC_CsvFaults prescribes the fault-free outcome for tables whose rows differ in width, contain text the output encoding cannot carry, or cells that do not convert. MC_ScopeUnwind explores a session machine with nested scopes whose destructors do fallible work, a fault at every step and user exceptions: events accepted by the protocol, never terminated, every failure ends with an exception; the variant with throwing destructors must yield the terminate counterexample (self-test on every run). The hook events (open / move / close / park / rethrow) of every fault run are validated against the same protocol: LIFO destruction, everything destroyed before the call ends, a parked destructor error is never lost.",
+        note="Fault points are those the harness can count: operator new calls (RapidJSON and pugixml allocate their DOM with malloc: not fault points), bytes requested from / written to the stream buffer. JSON/XML scenarios have an object/array root. Truncation at every byte of generated MsgPack documents from memory is covered by C07. Level reported as model_checking with TLC state counts; the fault enumeration is exhaustive over the counted fault points of each chosen scenario (CSV: a sample of the generated tables, all of them probed).",
         design_ref="DESIGN.md#c20"),
     "C11": dict(
         category="model_checking",
